@@ -770,6 +770,25 @@ impl<'a> PGen<'a> {
                 A
             }
         };
+        // one call in four is made with a live $of or $err (set by the instruction right before
+        // it: any ALU instruction in between would clear them), or with a changed $flag
+        match self.g.below(8) {
+            0 => {
+                let n = self.nreg();
+                emit!(self, r2(O::NOT, n, ZERO));
+                emit!(self, r3(O::MUL, n, n, n)); // $of != 0 when wrapping is on, else a panic
+            }
+            1 => {
+                let n = self.nreg();
+                emit!(self, r3(O::DIV, n, ONE, ZERO)); // $err = 1 when unsafe math is on, else a panic
+            }
+            2 if self.mix.unsafe_math => {
+                let n = self.nreg();
+                emit!(self, ri18(O::MOVI, n, 1 + self.g.below(3) as u32));
+                emit!(self, r1(O::FLAG, n));
+            }
+            _ => {}
+        }
         emit!(self, r4(O::CALL, D, B, C, gas_reg));
     }
 
